@@ -140,7 +140,9 @@ LenOutcomes(e) ==
   LET V == ({c \in {ESNULLP} : e.d = NULLP} \cup {c \in {ESZEROL} : e.dmax = 0} \cup {c \in {ESLEMAX} : e.dmax = HUGE}) IN
   IF V # {} THEN {WithO1(Out("err", {NOSTAT}, {<<c>>}, Same0(e.pre)), {0}) : c \in V}
                    \cup (IF e.fn = "wcsnlen_s" /\ e.d = NULLP THEN {WithO1(StatusOut(NOSTAT, Same0(e.pre)), {0})} ELSE {})   \* documented: NULL -> 0
-  ELSE {WithO1([StatusOut(NOSTAT, Same0(e.pre)) EXCEPT !.rtag = {"C10"}], {ScanLen(e.pre, e.d, e.dmax)})}
+  ELSE \* documented: "At most the first smax or sizeof(str) characters of str are accessed": a known object size below smax bounds the scan
+       LET lim == IF e.dbos # UNK /\ e.dbos < e.dmax THEN e.dbos ELSE e.dmax
+       IN {WithO1([StatusOut(NOSTAT, Same0(e.pre)) EXCEPT !.rtag = {"C10"}], {ScanLen(e.pre, e.d, lim)})}
 
 (* ---- strispassword_s: the documented make-up rule.  6 <= dmax <= 32; at least 2 lower case, 2 upper case, 1 digit and 1
    special character (printable ASCII that is none of the former), nothing else, fewer than 32 characters ---- *)
